@@ -1,5 +1,6 @@
 import FFVerif.Props.C10
 import FFVerif.Props.C10Asm
+import FFVerif.Props.C07
 #print axioms FFVerif.C10.nested_global
 #print axioms FFVerif.C10.secondOrderEntry_unfold
 #print axioms FFVerif.C10.secondOrder_case1
@@ -22,3 +23,6 @@ import FFVerif.Props.C10Asm
 #print axioms FFVerif.C10.secondOrderStep_plus_adjoint
 #print axioms FFVerif.C10.secondOrderFF_plus_adjoint
 #print axioms FFVerif.C10.secondOrderFFFromScratch_plus_adjoint
+#print axioms FFVerif.C07.cleanup_freq
+#print axioms FFVerif.C07.getFF_spec
+#print axioms FFVerif.C07.served_value_is_fresh
